@@ -1,4 +1,7 @@
 """C08 — stacked branches stay readable from their own repository plus fallbacks."""
+import shutil
+import tempfile
+
 from vf import env, tlc, table, core, world
 from vf.tlaval import to_py
 from harness import fetch_common as fc
@@ -17,12 +20,16 @@ META = dict(
                "stays readable. Simulated behaviours over graphs up to 4 (5) revisions with up to 3 actions are executed "
                "on real stacked branches and every step's projection is judged by the same TLA+ laws; exact equality of "
                "the local key sets with the model is checked as conformance.",
-    level_note="One level of stacking, 2a format. Merges are "
+    level_note="One level of stacking; 2a format, plus a second set of commit-free behaviours on a stacked 1.9-rich-root "
+               "branch fed from a pack-0.92 repository on local disk (InterDifferingSerializer; pre-2a formats refuse "
+               "commits to stacked branches). Merges are "
                "set_parent_ids + commit. A branch tip needs a revno, so stacking / push / pull use revisions whose "
                "left-hand history does not end in a ghost. Trusted: bzrformats pack / index / groupcompress code as "
                "executed, TLC, the JSON bridge.",
 )
 
+# stacked pre-2a format -> format of the development repository that feeds it (a different serialiser)
+PRE2A = {"1.9-rich-root": "pack-0.92"}
 INV = ("InvStackedComplete", "InvReadable", "InvNoDuplicates", "InvVisibleClosed", "LawsHoldOnSpec")
 WITNESSES = ("WitnessParentInvFromFallback", "WitnessMergeCommit", "WitnessCarriedFallbackText", "WitnessPushThenCommit")
 
@@ -47,19 +54,28 @@ def lists(x):
 class Fixture:
     """dev (everything), base (the split), st (the stacked branch) on one MemoryServer."""
 
-    def __init__(self, st, fmt, remote, create):
-        from breezy import controldir, transport as T, branch as B
+    def __init__(self, st, fmt, remote, create, workdir=None):
+        from breezy import controldir, transport as T, branch as B, urlutils
         from dromedary import memory
         self.fmt, self.remote, self.create = fmt, remote, create
-        self.srv = memory.MemoryServer()
-        self.srv.start_server()
-        self.url = self.srv.get_url()
+        self.srv = self.dir = None
+        devfmt = fmt
+        if fmt in PRE2A:
+            # a stacked pre-2a branch fed by LOCAL CROSS-FORMAT fetch / push / pull: the development repository is in
+            # another serialiser's format and everything is on disk, so that InterDifferingSerializer does the copying
+            devfmt = PRE2A[fmt]
+            self.dir = tempfile.mkdtemp(prefix="c08-", dir=workdir)
+            self.url = urlutils.local_path_to_url(self.dir) + "/"
+        else:
+            self.srv = memory.MemoryServer()
+            self.srv.start_server()
+            self.url = self.srv.get_url()
         self.root = T.get_transport(self.url)
         self.n0 = st["n0"]
         P, Tr = lists(st["h"]["P"]), lists(st["h"]["T"])
         t = self.root.clone("dev")
         t.ensure_base()
-        fc.build_history(P[:self.n0], Tr[:self.n0], fmt, transport=t, signed=[k for k in range(1, self.n0 + 1) if k % 2])
+        fc.build_history(P[:self.n0], Tr[:self.n0], devfmt, transport=t, signed=[k for k in range(1, self.n0 + 1) if k % 2])
         self.dev = B.Branch.open(self.url + "dev")
         got = fc.read_graph(self.dev.repository, self.n0)
         if got != P[:self.n0]:
@@ -71,7 +87,10 @@ class Fixture:
         self.rt = world.inproc_remote_transport(self.root)[0] if remote else None
 
     def close(self):
-        self.srv.stop_server()
+        if self.srv is not None:
+            self.srv.stop_server()
+        if self.dir is not None:
+            shutil.rmtree(self.dir, ignore_errors=True)
 
     def stacked(self, local=False):
         """A fresh object for the stacked branch, through bzr:// in remote mode."""
@@ -220,7 +239,7 @@ def replay_jobs(sub, chunk):
     ui.ui_factory.suppressed_warnings.add("cross_format_fetch")
     for bi, fmt, remote, create, beh in chunk:
         split = beh[1][1]
-        fx = Fixture(split, fmt, remote, create)
+        fx = Fixture(split, fmt, remote, create, sub.workdir)
         try:
             steps, prev = [], split
             for act, st in beh[2:]:
@@ -244,7 +263,7 @@ def replay(ctx, rep):
     row = rep["replay"]
     m, P, T = row["meta"], row["c"]["P"], row["meta"]["trees"]
     n0 = m["n0"]
-    fx = Fixture({"n0": n0, "h": {"P": P, "T": T}, "base": {"revs": m["base"]}}, m["format"], m["remote"], m["create"])
+    fx = Fixture({"n0": n0, "h": {"P": P, "T": T}, "base": {"revs": m["base"]}}, m["format"], m["remote"], m["create"], ctx.workdir)
     try:
         steps, tip, n = [], 0, n0
         for a, r, mm in m["calls"]:
@@ -281,12 +300,22 @@ def run(ctx):
     behs = [b for b in behs if len(b) >= 3]
     if len(behs) < num // 2:
         ctx.machinery("TLC produced only %d usable behaviours of %d" % (len(behs), num))
+    # a second, commit-free set of behaviours for a stacked PRE-2a branch (pre-2a formats refuse commits to stacked branches):
+    # 1.9-rich-root stacked on 1.9-rich-root, fed by local cross-format fetch / push / pull from a pack-0.92 repository on
+    # disk (InterDifferingSerializer); judged by the same laws
+    npre = 24 if ctx.quick else 400
+    pre, _ = tlc.simulate(ctx, "StackingMC", cfg_text=cfg(maxrev, 1, 0, 3, 0), num=npre, depth=6, seed=ctx.seed + 1,
+                          label="simulate %d commit-free behaviours" % npre, timeout=3000)
+    pre = [[(a, to_py(s)) for a, s in b] for b in pre]
+    pre = [b for b in pre if len(b) >= 3]
+    if len(pre) < npre // 2:
+        ctx.machinery("TLC produced only %d usable commit-free behaviours of %d" % (len(pre), npre))
     jobs = []
-    for bi, b in enumerate(behs):
-        fmt = "2a"      # C08 quantifies over 2a stacked formats (pre-2a formats refuse commits to stacked branches)
+    for bi, (b, fmt) in enumerate([(b, "2a") for b in behs] + [(b, "1.9-rich-root") for b in pre]):
         # creation by set_stacked_on_url + pull moves a branch tip, which needs a revno (see MainlineOk in the spec)
         ghostly = fc.mainline_has_ghost(lists(b[1][1]["h"]["P"]), b[2][1]["step"]["r"])
-        jobs.append((bi, fmt, bi % 2 == 1, "sprout" if bi % 4 < 2 or ghostly else "set-url", b))
+        jobs.append((bi, fmt, fmt == "2a" and bi % 2 == 1, "sprout" if bi % 4 < 2 or ghostly else "set-url", b))
+    ctx.cov["pre2a_behaviours"] = len(pre)
     core.fork_map(ctx, replay_jobs, jobs)
     rows = ctx.collected
     if not rows:
@@ -294,8 +323,9 @@ def run(ctx):
     ctx.rule("behaviours = TLC -simulate of StackingMC: random graph <= %d revisions (<= 2 ordered parents, a ghost allowed), "
              "edit pattern by graph shape, random non-empty closed split, stacking revision, then up to 3 of commit / merge "
              "commit / fetch / push / pull; alternately local and bzr://, created by sprout(stacked=True) or "
-             "set_stacked_on_url; one row per step; distinct = (format, transport, creation, graph, split, calls)" % maxrev)
-    ctx.cov["behaviours"] = len(behs)
+             "set_stacked_on_url; plus %d commit-free behaviours on a stacked 1.9-rich-root branch fed cross-format from "
+             "pack-0.92 on disk; one row per step; distinct = (format, transport, creation, graph, split, calls)" % (maxrev, npre))
+    ctx.cov["behaviours"] = len(behs) + len(pre)
     judge(ctx, rows)
 
 
